@@ -47,6 +47,8 @@ type responseRouter struct {
 	gen uint64
 	// method is the method of the request; a reply must name the same method
 	method string
+	// replied, if not nil, is set to 1 when a reply to the request has arrived from the node
+	replied *int32
 }
 
 // send hands the response over to the call. It must not be called with the
@@ -164,6 +166,9 @@ func (c *channel) routeReply(msg *Message) {
 	resp := response{nid: c.node.ID(), msg: msg.Message, err: status.FromProto(msg.Metadata.GetStatus()).Err()}
 	c.responseMut.Lock()
 	router, ok := c.responseRouters[msg.Metadata.MessageID]
+	if ok && router.replied != nil {
+		atomic.StoreInt32(router.replied, 1)
+	}
 	c.responseMut.Unlock()
 	if ok && router.method != msg.Metadata.Method {
 		resp = response{nid: c.node.ID(), err: status.Errorf(codes.Internal, "gorums: reply for method %q to a request for method %q", msg.Metadata.Method, router.method)}
@@ -224,11 +229,12 @@ func (c *channel) drainSendQ() {
 }
 
 // markSent records the generation of the stream a request was sent on.
-func (c *channel) markSent(msgID uint64, gen uint64) {
+func (c *channel) markSent(msgID uint64, gen uint64, replied *int32) {
 	c.responseMut.Lock()
 	defer c.responseMut.Unlock()
 	if router, ok := c.responseRouters[msgID]; ok {
 		router.gen = gen
+		router.replied = replied
 		c.responseRouters[msgID] = router
 	}
 }
@@ -284,6 +290,9 @@ func (c *channel) sendMsg(req request) (err error) {
 	// the stream (and its cancel function) may be replaced by reconnect as soon
 	// as the read lock is released; the goroutine below must cancel this stream.
 	cancelStream := c.cancelStream
+	// replied is set by the receiver when the node's reply to this request arrives:
+	// the request has then been written, whether or not 'done' is closed yet.
+	replied := new(int32)
 
 	// This goroutine waits for either 'done' to be closed, or the request context to be cancelled.
 	// If the request context was cancelled, we have two possibilities:
@@ -300,8 +309,13 @@ func (c *channel) sendMsg(req request) (err error) {
 			case <-done:
 				// false alarm
 			default:
-				// trigger reconnect
-				cancelStream()
+				// The caller may have its reply already, and have ended its context, before
+				// 'done' is closed below; the stream is not blocked then, and cancelling it
+				// would only fail the calls that follow.
+				if atomic.LoadInt32(replied) == 0 {
+					// trigger reconnect
+					cancelStream()
+				}
 			}
 		}
 	}()
@@ -309,7 +323,7 @@ func (c *channel) sendMsg(req request) (err error) {
 	// The reply (if any) will arrive on this stream. The request is marked before
 	// it is written: the stream may break, and the receiver may fail the calls
 	// pending on it, as soon as the write has happened.
-	c.markSent(req.msg.Metadata.MessageID, c.streamGen)
+	c.markSent(req.msg.Metadata.MessageID, c.streamGen, replied)
 	err = c.gorumsStream.SendMsg(req.msg)
 	if err != nil {
 		c.setLastErr(err)
